@@ -232,25 +232,27 @@ Section Cipher.
     | _ => Ok v
     end.
 
+  (* what encrypt_eyaml makes of the command's output (eyamlprocessor.py:238-269) *)
+  Definition post_encrypt (fmt : out_fmt) (out : string) : outcome string :=
+    if negb (is_ascii_str out) then Raise (PyCrash ValueError)                  (* .decode("ascii") *)
+    else
+      let retval := rstrip_py out in
+      if str_is_empty retval then Raise EyamlExc
+      else match fmt with
+           | OString => Ok retval
+           | OBlock =>
+               let fixval := replace_all " " "" (strip_py retval) in
+               Ok (replace_all (String (ch 13) (String (ch 10) EmptyString)) " " fixval
+                   ++ String (ch 10) EmptyString)%string
+           end.
+
   (* encrypt_eyaml (eyamlprocessor.py:210-269) *)
   Definition encrypt_eyaml (k : key) (value : string) (fmt : out_fmt) : outcome string :=
     if is_eyaml_str value then Ok value
-    else if negb (is_ascii_str value) then Raise (PyCrash ValueError)
+    else if negb (is_ascii_str value) then Raise (PyCrash ValueError)           (* .encode("ascii") *)
     else match enc k value with
          | None => Raise EyamlExc
-         | Some c =>
-             let out := layout fmt c in
-             if negb (is_ascii_str out) then Raise (PyCrash ValueError)
-             else
-               let retval := rstrip_py out in
-               if str_is_empty retval then Raise EyamlExc
-               else match fmt with
-                    | OString => Ok retval
-                    | OBlock =>
-                        let fixval := replace_all " " "" (strip_py retval) in
-                        Ok (replace_all (String (ch 13) (String (ch 10) EmptyString)) " " fixval
-                            ++ String (ch 10) EmptyString)%string
-                    end
+         | Some c => post_encrypt fmt (layout fmt c)
          end.
 
   Variables (oldk newk : key).
